@@ -29,7 +29,7 @@ use std::future::Future;
 use std::io::{self, IoSlice};
 use std::panic::{catch_unwind, AssertUnwindSafe};
 use std::pin::Pin;
-use std::sync::atomic::{AtomicBool, Ordering};
+use std::sync::atomic::{AtomicBool, AtomicUsize, Ordering};
 use std::sync::{Arc, Mutex};
 use std::task::{Context, Poll, Wake, Waker};
 
@@ -500,18 +500,29 @@ fn req_new(a: &Args) -> Args {
 /// flush_fault <variant, fail_at>: the transport's poll_flush fails (the place where buffering transports report failed writes) at its
 /// fail_at-th call; the handler does not drop the writer at once but goes on: variant 0 writes a note through ANOTHER StreamWriter,
 /// 1 writes again through the SAME writer, 2 reads its input (a management record is waiting, its reply needs the output lock),
-/// 3 returns the error at once, 4 reads ALL its input with the writers alive (the management reply must reach the transport).  Harness-side assertion: the connection task ends (no hang on the output lock, no panic);
+/// 3 returns the error at once, 4 reads ALL its input with the writers alive (the management reply must reach the transport); variant 5: instead of a flush fault the fail_at-th poll_write reports the transient Interrupted and the handler retries on the same writer (the wire must be the same as without the fault).  Harness-side assertion: the connection task ends (no hang on the output lock, no panic);
 /// observation [1].  The scripted world of conn_run has no flush faults (the model's flush never fails), hence this separate mode.
+static RETRIED: AtomicUsize = AtomicUsize::new(0);
+
 fn flush_fault(a: &Args) -> Args {
+    RETRIED.store(0, Ordering::SeqCst);
     struct FlushFail {
         calls: usize,
         fail_at: usize,
         log: Arc<Mutex<Vec<u8>>>,
+        wcalls: usize,
+        wfail_at: usize,          // variant 5: this poll_write call reports the transient Interrupted (nothing accepted)
     }
     impl AsyncWrite for FlushFail {
-        fn poll_write(self: Pin<&mut Self>, _: &mut Context, b: &[u8]) -> Poll<io::Result<usize>> {
-            self.log.lock().expect("log").extend_from_slice(b);
-            Poll::Ready(Ok(b.len()))
+        fn poll_write(mut self: Pin<&mut Self>, _: &mut Context, b: &[u8]) -> Poll<io::Result<usize>> {
+            self.wcalls += 1;
+            if self.wcalls == self.wfail_at {
+                return Poll::Ready(Err(io::ErrorKind::Interrupted.into()));
+            }
+            // (variant 5 accepts 3 bytes per call so that the fault can fall anywhere inside a record)
+            let n = if self.wfail_at != 0 { b.len().min(3) } else { b.len() };
+            self.log.lock().expect("log").extend_from_slice(&b[..n]);
+            Poll::Ready(Ok(n))
         }
         fn poll_flush(mut self: Pin<&mut Self>, _: &mut Context) -> Poll<io::Result<()>> {
             self.calls += 1;
@@ -543,6 +554,23 @@ fn flush_fault(a: &Args) -> Args {
             Box::pin(async move {
                 let mut out = req.output_stream(RecordType::Stdout);
                 let mut errw = req.output_stream(RecordType::Stderr);
+                if variant == 5 {
+                    // a handler that retries transient errors on the SAME writer, as std::io::Write::write_all does for Interrupted
+                    for (k, data) in [&b"hello world!"[..], &b"warn"[..], &b"bye"[..]].iter().enumerate() {
+                        let w = if k == 1 { &mut errw } else { &mut out };
+                        let mut pos = 0;
+                        while pos < data.len() {
+                            match w.write(&data[pos..]).await {
+                                Ok(n) => pos += n,
+                                Err(e) if e.kind() == io::ErrorKind::Interrupted => { RETRIED.fetch_add(1, Ordering::SeqCst); continue },
+                                Err(e) => return Err(e),
+                            }
+                        }
+                    }
+                    drop(out);
+                    drop(errw);
+                    return Ok(ExitStatus::SUCCESS);
+                }
                 out.write_all(b"hello").await?;
                 let mut first: Option<io::Error> = None;
                 for _ in 0..fail_at {
@@ -575,6 +603,9 @@ fn flush_fault(a: &Args) -> Args {
     wire.extend_from_slice(&[1, 9, 0, 0, 0, 17, 0, 0, 15, 0]);
     wire.extend_from_slice(b"FCGI_MPXS_CONNS");
     wire.extend_from_slice(&[1, 5, 0, 1, 0, 0, 0, 0]);
+    if variant == 5 {
+        wire[10] = 0;          // no KeepConn: the handler returns a status, the request is closed and the connection ends
+    }
     let log = Arc::new(Mutex::new(Vec::new()));
     let r = catch_unwind(AssertUnwindSafe(|| {
         let flag = Arc::new(Flag(AtomicBool::new(false)));
@@ -591,7 +622,8 @@ fn flush_fault(a: &Args) -> Args {
         };
         let handler = mk(variant, fail_at);
         let mut task: Pin<Box<dyn Future<Output = ()>>> =
-            Box::pin(token.run(Once(wire, 0), FlushFail { calls: 0, fail_at, log: log.clone() }, handler));
+            Box::pin(token.run(Once(wire.clone(), 0), FlushFail { calls: 0, fail_at: if variant == 5 { usize::MAX } else { fail_at }, log: log.clone(), wcalls: 0,
+                                        wfail_at: if variant == 5 { fail_at } else { 0 } }, handler));
         let mut polls = 0;
         loop {
             polls += 1;
@@ -601,6 +633,33 @@ fn flush_fault(a: &Args) -> Args {
             }
             assert!(flag.0.load(Ordering::SeqCst), "after a failed flush the connection task is suspended and nobody will wake it (it waits for the output lock)");
             assert!(polls < 10_000, "the connection task spins after a failed flush");
+        }
+        if variant == 5 {
+            // the transient error must be invisible on the wire: the same bytes as without it (reference: the fault far away)
+            let reflog = Arc::new(Mutex::new(Vec::new()));
+            let rrunner = config(256, 1).async_runner();
+            let rtoken = {
+                let fut = rrunner.get_token();
+                futures_util::pin_mut!(fut);
+                match fut.poll(&mut cx) {
+                    Poll::Ready(t) => t,
+                    Poll::Pending => panic!("no token"),
+                }
+            };
+            let mut rtask: Pin<Box<dyn Future<Output = ()>>> = Box::pin(rtoken.run(Once(wire.clone(), 0),
+                FlushFail { calls: 0, fail_at: usize::MAX, log: reflog.clone(), wcalls: 0, wfail_at: usize::MAX }, mk(5, 1)));
+            let mut n = 0;
+            while rtask.as_mut().poll(&mut cx).is_pending() {
+                n += 1;
+                assert!(n < 10_000, "reference run does not end");
+            }
+            let (l, r) = (log.lock().expect("log"), reflog.lock().expect("log"));
+            if RETRIED.load(Ordering::SeqCst) > 0 {
+                assert_eq!(*l, *r, "a transient write error that the handler retried changed the bytes on the wire");
+            } else {
+                // the fault hit a write of the connection task itself (management reply, epilogue): the connection is dropped there
+                assert!(r.starts_with(&l), "after a write error outside the handler the wire is not a prefix of the undisturbed output");
+            }
         }
         if variant == 4 {
             let l = log.lock().expect("log");
